@@ -98,6 +98,24 @@ func chanToken(v ssa.Value) (string, bool) {
 func lockTransfer(in ssa.Instruction, held LockSet) {
 	switch x := in.(type) {
 	case *ssa.Call:
+		// a module function that does nothing to the lockset but acquire or release a lock reachable from one of its
+		// parameters on every path (l.acquire(), c.lockWrite()): the same effect on the caller's argument
+		if f := x.Call.StaticCallee(); f != nil && InModule(f) && len(f.Blocks) > 0 {
+			for _, ef := range lockEffectsOf(f) {
+				if ef.param >= len(x.Call.Args) {
+					continue
+				}
+				tok := TypedPath(x.Call.Args[ef.param]) + ef.suffix
+				if strings.HasPrefix(tok, "%") {
+					continue
+				}
+				if ef.acquire {
+					held[tok] = true
+				} else {
+					delete(held, tok)
+				}
+			}
+		}
 		if recv, name := mutexMethod(&x.Call); recv != nil {
 			tok := TypedPath(recv)
 			switch name {
@@ -309,3 +327,103 @@ func FreshBase(v ssa.Value) bool {
 }
 
 func isParam(v ssa.Value) bool { _, ok := v.(*ssa.Parameter); return ok }
+
+// lockEffect: calling the function acquires (or releases) the lock at <argument param><suffix>.
+type lockEffect struct {
+	acquire bool
+	param   int
+	suffix  string
+}
+
+var (
+	lockEffectCache = map[*ssa.Function][]lockEffect{}
+	lockEffectBusy  = map[*ssa.Function]bool{}
+)
+
+// lockEffectsOf summarises a small function as a lock wrapper: a token rooted at a parameter that is held at every
+// return although it was not held at entry is acquired by the call; one that some instruction releases and that is not
+// held at any return is released by it.  Anything else (conditional acquisition, locks of other objects) is no effect.
+func lockEffectsOf(f *ssa.Function) []lockEffect {
+	if e, ok := lockEffectCache[f]; ok {
+		return e
+	}
+	if lockEffectBusy[f] || len(f.Blocks) > 12 {
+		return nil
+	}
+	lockEffectBusy[f] = true
+	defer delete(lockEffectBusy, f)
+	var out []lockEffect
+	rooted := func(v ssa.Value) (int, string, bool) {
+		root, ok := pathRoot(v, 0).(*ssa.Parameter)
+		if !ok {
+			return 0, "", false
+		}
+		tn := typeBaseName(root.Type())
+		tp := TypedPath(v)
+		if tn == "" || !strings.HasPrefix(tp, tn) {
+			return 0, "", false
+		}
+		for i, p := range f.Params {
+			if p == root {
+				return i, tp[len(tn):], true
+			}
+		}
+		return 0, "", false
+	}
+	// tokens touched, by their parameter-relative form
+	type key struct {
+		param  int
+		suffix string
+	}
+	touched := map[string]key{}
+	released := map[string]bool{}
+	EachInstr(f, func(in ssa.Instruction) {
+		var v ssa.Value
+		rel := false
+		switch x := in.(type) {
+		case *ssa.Call:
+			if recv, name := mutexMethod(&x.Call); recv != nil {
+				v = recv
+				rel = name == "Unlock" || name == "RUnlock"
+			}
+		case *ssa.UnOp:
+			if x.Op == token.ARROW {
+				v = x.X
+			}
+		case *ssa.Send:
+			v, rel = x.Chan, true
+		}
+		if v == nil {
+			return
+		}
+		if i, suf, ok := rooted(v); ok {
+			tok := TypedPath(v)
+			touched[tok] = key{i, suf}
+			if rel {
+				released[tok] = true
+			}
+		}
+	})
+	if len(touched) > 0 {
+		li := (*Program)(nil).lockAnalysis(f, LockSet{}, false)
+		rets := Returns(f)
+		for tok, k := range touched {
+			heldAll, heldAny := len(rets) > 0, false
+			for _, r := range rets {
+				if li.HeldAt(r)[tok] {
+					heldAny = true
+				} else {
+					heldAll = false
+				}
+			}
+			switch {
+			case heldAll:
+				out = append(out, lockEffect{true, k.param, k.suffix})
+			case released[tok] && !heldAny:
+				out = append(out, lockEffect{false, k.param, k.suffix})
+			}
+		}
+	}
+	lockEffectCache[f] = out
+	return out
+}
